@@ -25,12 +25,12 @@ type fedge struct {
 
 type flowGraph struct {
 	w           *World
-	fieldStores map[*types.Var][]ssa.Value        // values stored into a field (directly or as container element/key)
-	fieldSites  map[*types.Var][]ssa.Instruction   // the storing instructions
-	globStores  map[*ssa.Global][]ssa.Value        // values stored into a global (or into the container it holds)
-	allocStores map[*ssa.Alloc][]ssa.Value         // stores into a local cell, including through closures
+	fieldStores map[*types.Var][]ssa.Value       // values stored into a field (directly or as container element/key)
+	fieldSites  map[*types.Var][]ssa.Instruction // the storing instructions
+	globStores  map[*ssa.Global][]ssa.Value      // values stored into a global (or into the container it holds)
+	allocStores map[*ssa.Alloc][]ssa.Value       // stores into a local cell, including through closures
 	closures    map[*ssa.Function][]*ssa.MakeClosure
-	sends       map[*types.Var][]ssa.Value // values sent on a channel held in a field
+	sends       map[*types.Var][]ssa.Value    // values sent on a channel held in a field
 	fmtRecv     map[*ssa.Function][]ssa.Value // receivers reaching String()/Error()/Write methods through fmt
 }
 
@@ -578,9 +578,9 @@ func (g *flowGraph) callResult(c *ssa.Call, idx int) (out []fedge, leaf string) 
 // ---- queries ----
 
 type flowResult struct {
-	Leaves  map[string]bool  // leaf descriptors, prefixed "+"/"-" by negation parity
-	Through map[string]bool  // derive ops seen anywhere in the closure
-	Nodes   map[fnode]bool   // every node in the closure
+	Leaves  map[string]bool // leaf descriptors, prefixed "+"/"-" by negation parity
+	Through map[string]bool // derive ops seen anywhere in the closure
+	Nodes   map[fnode]bool  // every node in the closure
 	Calls   map[*ssa.Call]bool
 }
 
